@@ -42,7 +42,7 @@ ENGINE_RULES = [
 def sizes(tier):
     if tier == "thorough":
         return {"histories": 1500, "steps": 5, "per_shard": 40}
-    return {"histories": 170, "steps": 4, "per_shard": 36}
+    return {"histories": 420, "steps": 4, "per_shard": 40}
 
 
 def tree_hash(paths):
